@@ -73,7 +73,8 @@ Lin(g) ==
                  /\ ValOk(e, run, cat)
                  /\ CallsOk(e, run, cat)) = TRUE
              /\ cat' = NextCat(cat, files, e, HintOf(e, run, cat, files))
-             /\ UNCHANGED <<files, open>>
+             /\ files' = NextFiles(cat, files, e)
+             /\ UNCHANGED open
           \/ /\ r.st = "err"
              /\ (r.err \in Errs(cat, files, e) \/ (Conflict(r) /\ e.op \in WriteOps)) = TRUE
              /\ UNCHANGED vars
